@@ -78,6 +78,9 @@ fn main() {
             let seed: u64 = args[3].parse().expect("seed");
             let out = run_one(fam, Mode::Search(seed));
             println!("{}", dst::report::sample_trace(&out, 100_000));
+            if std::env::var("VERIF_SHOW_PLAN").is_ok() {
+                println!("cfg={:?}\np_immediate={} p_hold={} w_outcome={:?} w_payload={:?} senders={:?} faults={:?}", out.plan.cfg, out.plan.p_immediate, out.plan.p_hold, out.plan.w_outcome, out.plan.w_payload, out.plan.senders, out.plan.faults);
+            }
             println!(
                 "steps={} polls={} sim_ms={} panic={:?} budget_hit={} conn_done={:?} setup_error={:?} runnable_left={} armed_left={} digest={:016x} sig={:016x} choices={}",
                 out.stats.steps, out.stats.task_polls, out.stats.sim_ms, out.panic, out.budget_hit, out.conn_done, out.setup_error, out.runnable_left, out.armed_left, out.digest, out.signature, out.choices.len()
